@@ -20,10 +20,11 @@ def scenario(env, caps, sym):
     return R.replay(env, caps, sym)
 
 
-def run_property(ctx, pid, profiles, nprog, nops, scenarios=(), own_props=None, extra=None, pb_every=5):
+def run_property(ctx, pid, profiles, nprog, nops, scenarios=(), own_props=None, extra=None, pb_every=5, props_file=True):
     own_props = own_props or [pid]
     ctx.trusted += TRUST
-    common.check_properties_file(ctx)
+    if props_file:
+        common.check_properties_file(ctx)
     env = N.setup()
     rng = ctx.rng
     runners = []
